@@ -156,6 +156,10 @@ def run(ctx):
                 ctx.violate("relay-closes", dict(rp, observed="the proxy closed the viewer's connection although its version line %r is one the recorder understands" % vstream[:12]))
                 ok = False
                 break
+            if p.foreign(d):
+                ctx.violate("relay-bytes", dict(rp, observed="while relaying a %s-side chunk the proxy wrote %s to the OTHER leg: bytes that neither side sent" % ("viewer" if d == "v" else "server", hx(p.foreign(d))[:60])))
+                ok = False
+                break
             if fwd != ch:
                 ctx.violate("relay-bytes", dict(rp, observed="%s-side chunk %s was forwarded as %s" % ("viewer" if d == "v" else "server", hx(ch)[:80], hx(fwd)[:80])))
                 ok = False
